@@ -1,10 +1,12 @@
 #!/bin/bash
-# run every registered check (quick tier by default) and print one summary line each
+# run every registered check (quick tier by default) and print one summary line each, prefixed by the check's exit status
 cd "$(dirname "$0")/.."
 tier=${1:-quick}
 for i in $(seq -w 1 20); do
-  out=$(./check C$i --tier $tier 2>&1 | grep -v conda)
+  tmp=$(mktemp)
+  ./check C$i --tier $tier > $tmp 2>&1
   rc=$?
-  echo "$out" | grep -E "VIOLATION|undecided|checker fault" | head -5
-  echo "$out" | tail -1 | sed "s/^/[exit ${PIPESTATUS[0]}] /"
+  grep -E "^VIOLATION|^undecided|^checker fault" $tmp | head -5
+  grep -v conda $tmp | tail -1 | sed "s/^/[exit $rc] /"
+  rm -f $tmp
 done
